@@ -1222,3 +1222,93 @@ def rule_config_errors(ctx, prop):
                                   f"another configuration, rewrites the files and exits 0 instead of exiting 2", f.loc(t["sp"]), cfg)
         rep.floor("call sites of the configuration-reading layer", n, 8, cfg)
     return rep
+
+
+EC_PATH_MAKERS = re.compile(r"PathBuf as .*From<.*>>::from$|Path::new$|PathBuf::from$|Path::join$|PathBuf::push$|Path::with_file_name$|"
+                            r"Path::with_extension$")
+
+
+def rule_ec_path(ctx, prop):
+    """ec4rs looks for .editorconfig files starting in the *parent* of the path it is given and matches section globs against
+    the path's last component: the path handed to editorconfig::parse has to name a (pseudo) file, never a directory"""
+    rep = Report(prop, "R-EC(path)", "every editorconfig::parse call in the CLI is given the path of the file being formatted (a path "
+                                     "parameter) or a pseudo file path built from a literal; never a value the same code uses as a directory")
+    for cfg, prog in ctx.programs.items():
+        prog = _view(prog)
+        n = 0
+        for f in prog.fns("stylua"):
+            for b, t in f.calls():
+                if not re.search(r"(^|::)editorconfig::parse$", callee(t)) or len(t["args"]) < 2:
+                    continue
+                n += 1
+                roots = provenance(f, t["args"][1], into_aggs=False)
+                bad = []
+                for r in roots:
+                    if r[0] == "arg" and r[1] >= 2 and re.search(r"Path(Buf)?\b", f.local_ty(r[1])):
+                        continue
+                    if r[0] == "upvar":
+                        continue
+                    if r[0] == "const" and r[1].startswith(("s:", "pp:")):
+                        continue
+                    if r[0] == "call" and EC_PATH_MAKERS.search(r[1]):
+                        from r_directive import _str_consts
+                        t3 = f.blocks[r[2]]["term"]
+                        lits = [x for a in t3["args"] for x in _str_consts(f, a)]
+                        if lits and not any(x.endswith((".lua", ".luau")) for x in lits):
+                            bad.append(("literal", repr(lits[0])))
+                        continue
+                    bad.append(r)
+                # the same value is not used as a directory elsewhere in the function
+                dirs = []
+                for b2, t2 in f.calls():
+                    c2 = callee(t2)
+                    if re.search(r"find_config_file$|lookup_config_file_in_directory$|read_dir$|set_current_dir$", c2) and len(t2["args"]) > 1:
+                        dirs.append((c2, t2["args"][1]))
+                mine = {r for r in roots if r[0] == "call"} | {("l", l) for l in _slice_locals(f, t["args"][1])}
+                shared = []
+                for c2, o2 in dirs:
+                    theirs = {r for r in provenance(f, o2, into_aggs=False) if r[0] == "call"} | {("l", l) for l in _slice_locals(f, o2)}
+                    if mine & theirs:
+                        shared.append(c2.split("::")[-1])
+                ok = not bad and not shared
+                rep.inst(f"{f.key} editorconfig::parse path names a file", {"roots": sorted(str(r[:2]) for r in roots)}, cfg, ok=ok)
+                if not ok:
+                    why = f"also-the-directory-of {','.join(sorted(set(shared)))}" if shared else \
+                        "from " + ",".join(sorted(str(r[1]).split("::")[-1] if r[0] == "call" else f"{r[0]}{r[1]}" for r in bad))
+                    rep.violation(f"{f.key} editorconfig-path-not-a-file {why}",
+                                  f"{f.path} hands editorconfig::parse a path that is {why.replace('-', ' ')}: ec4rs reads "
+                                  f".editorconfig files from the parent of that path upwards and matches [*.lua] sections against "
+                                  f"its last component, so the directory's own .editorconfig is skipped and no Lua section applies - "
+                                  f"options written as .editorconfig keys are ignored on this path while the same values in "
+                                  f"stylua.toml or as flags take effect", f.loc(t["sp"]), cfg)
+        if cfg == "nodefault" and not n:
+            rep.note("@nodefault: editorconfig feature not compiled in (no call site to check)")
+        else:
+            rep.floor("editorconfig::parse call sites in the CLI", n, 2, cfg)
+    return rep
+
+
+def _slice_locals(f, o):
+    """user-visible locals (those with a debug name) the operand's value flows from, not crossing calls other than the
+    borrow / clone family"""
+    out, seen = set(), set()
+    names = getattr(f, "var_names", None)
+
+    def visit(l):
+        if l in seen or 1 <= l <= f.argc:
+            return
+        seen.add(l)
+        out.add(l)
+        for bi, si, s in f.defs().get(l, []):
+            if si == "term":
+                if PROV_THROUGH.search(callee(s)) and s["args"] and not is_const(s["args"][0]):
+                    visit(op_place(s["args"][0])["l"])
+            else:
+                rv = s["rv"]
+                if rv["k"] in ("use", "cast") and not is_const(rv["o"]):
+                    visit(op_place(rv["o"])["l"])
+                elif rv["k"] == "ref":
+                    visit(rv["p"]["l"])
+    if not is_const(o):
+        visit(op_place(o)["l"])
+    return out
